@@ -63,6 +63,13 @@ let handle (toks : string list) : string =
   | ["rc"; fixed; p] ->
       let f = if fixed = "1" then read_cmd_fixed http_stub else read_cmd http_stub in
       cres_str (f (bytes_of_hex p))
+  | ["sizes"] -> Printf.sprintf "%d %d" (int_of_n sock_read_size) (int_of_n pipeline_buf_size)
+  | "serve" :: psz :: reads ->
+      (match serve_reads (read_cmd_fixed http_stub) (nat_of_int (int_of_string psz)) (List.map bytes_of_hex reads) [] [] [] with
+       | SOpen (ms, buf, parked) -> Printf.sprintf "O %d %d %s" (List.length buf) (List.length parked) (msgs_str ms)
+       | SClosed (ms, e) -> Printf.sprintf "X %s %s" (cerr_str e) (msgs_str ms)
+       | SCrashed -> "P"
+       | SNoFuel -> "U")
   | ["http"; p] -> cres_str (http_parse (bytes_of_hex p))
   | "conn" :: fixed :: chunks ->
       let f = if fixed = "1" then read_cmd_fixed http_stub else read_cmd http_stub in
